@@ -155,6 +155,9 @@ func (api *API) decodeBasedOnType(ctx context.Context, b []byte, value reflect.V
 		if !set {
 			return 0, ierrors.New("can't deserialize 'string' type: no LengthPrefixType was provided")
 		}
+		if err := checkLengthPrefixTypeSupported(lengthPrefixType); err != nil {
+			return 0, ierrors.Wrap(err, "can't deserialize 'string' type")
+		}
 		deseri := serializer.NewDeserializer(b)
 		addrValue := value.Addr()
 		addrValue = addrValue.Convert(reflect.TypeOf((*string)(nil)))
@@ -417,6 +420,9 @@ func (api *API) decodeSlice(ctx context.Context, b []byte, value reflect.Value,
 		if !set {
 			return 0, ierrors.Errorf("no LengthPrefixType was provided for slice type %s", valueType)
 		}
+		if err := checkLengthPrefixTypeSupported(lengthPrefixType); err != nil {
+			return 0, ierrors.Wrapf(err, "can't deserialize slice type %s", valueType)
+		}
 		deseri := serializer.NewDeserializer(b)
 		addrValue := value.Addr()
 		addrValue = addrValue.Convert(reflect.TypeOf((*[]byte)(nil)))
@@ -532,6 +538,9 @@ func (api *API) decodeSequence(b []byte, deserializeItem serializer.DeserializeF
 	lengthPrefixType, set := ts.LengthPrefixType()
 	if !set {
 		return 0, ierrors.Errorf("no LengthPrefixType was provided for type %s", valueType)
+	}
+	if err := checkLengthPrefixTypeSupported(lengthPrefixType); err != nil {
+		return 0, ierrors.Wrapf(err, "can't deserialize type %s", valueType)
 	}
 	arrayRules := ts.ArrayRules()
 	if arrayRules == nil {
